@@ -66,7 +66,14 @@ class Track:
         n = self.file_names[k]
         if fo is None or n is None:
             return None
-        return fo.get_file(n, include_deleted=True)
+        # (the harness' own lookup, not Folder.get_file: the live file of that name, else the one deleted LAST)
+        for f in fo.files.values():
+            if f.name == n:
+                return f
+        for f in reversed(list(fo.deleted_files.values())):
+            if f.name == n:
+                return f
+        return None
 
     def concerns(self, obj) -> bool:
         if obj is self.sw:
